@@ -186,7 +186,11 @@ func parseOp(toks []string, fwd bool) (*pkt, bool) {
 			okAll = false
 		}
 	}
-	p.hbh = int(num("hbh", 0, 1))
+	if fwd {
+		p.hbh = int(num("hbh", 0, 40)) // srv.fwd: hop-by-hop option with hbh+1 data bytes
+	} else {
+		p.hbh = int(num("hbh", 0, 1))
+	}
 	p.e2e = int(num("e2e", 0, 1))
 	p.pre = int(num("pre", 0, 1))
 	if kv["auth"] == "none" {
@@ -259,8 +263,10 @@ const (
 	postOptType = slayers.OptionType(202)
 )
 
+// hbhOptData: hbh=k stands for a hop-by-hop extension with the single option (201, k+1 bytes 0x09)
+func hbhOptData(k int) []byte { return bytes.Repeat([]byte{9}, k+1) }
+
 var (
-	hbhOptData = []byte{9, 9}
 	// data of an option of the dispatcher's timestamp type that the *sender* put into the packet
 	senderTsData = []byte{0xf0, 0xf1, 0xf2, 0xf3, 0xf4, 0xf5, 0xf6, 0xf7, 0xf8, 0xf9, 0xfa, 0xfb, 0xfc, 0xfd, 0xfe, 0xff}
 )
@@ -322,10 +328,10 @@ func (p *pkt) layers() (*slayers.SCION, []gopacket.SerializableLayer, []byte) {
 		}
 		next = slayers.End2EndClass
 	}
-	if p.hbh == 1 {
+	if p.hbh >= 1 {
 		h := &slayers.HopByHopExtn{}
 		h.NextHdr = next
-		h.Options = []*slayers.HopByHopOption{{OptType: hbhOptType, OptData: hbhOptData}}
+		h.Options = []*slayers.HopByHopOption{{OptType: hbhOptType, OptData: hbhOptData(p.hbh)}}
 		scn.NextHdr = slayers.HopByHopClass
 		ls = append(ls, h)
 	} else {
